@@ -628,6 +628,13 @@ def dissolve_subrecords(trees: dict[str, ast.Module]) -> dict[str, dict[str, str
     import copy
 
     known = _known_attrs()
+    import os
+
+    try:
+        with open(os.path.join(os.path.dirname(os.path.abspath(__file__)), "known_classes.txt")) as fh:
+            known_class_names = {ln.strip().split(":", 1)[-1] for ln in fh if ln.strip()}
+    except OSError:
+        known_class_names = set()
     done: dict[str, dict[str, str]] = {}
     attr_uses: dict[str, dict[str, int]] = {}  # module -> attribute name -> count
     for mname, tree in trees.items():
@@ -641,7 +648,7 @@ def dissolve_subrecords(trees: dict[str, ast.Module]) -> dict[str, dict[str, str
         return any(c.get(attr, 0) for m, c in attr_uses.items() if m != mname) or attr_uses[mname].get(attr, 0) != inside
 
     for mname, tree in trees.items():
-        recs = _record_fields(tree)
+        recs = {k: v for k, v in _record_fields(tree).items() if k not in known_class_names}  # records the rules know stay records
         for cls in [c for c in tree.body if isinstance(c, ast.ClassDef)]:
             qual = f"{mname}:{cls.name}"
             if cls.name in recs:
@@ -1142,7 +1149,7 @@ def unwrap_lock_holders(trees: dict[str, ast.Module], known_classes: set[str]) -
     holders: set[str] = set()
     for mname, tree in trees.items():
         for c in tree.body:
-            if not isinstance(c, ast.ClassDef) or f"{mname}:{c.name}" in known_classes or c.bases:
+            if not isinstance(c, ast.ClassDef) or f"{mname}:{c.name}" in known_classes or c.name in {q.split(":", 1)[-1] for q in known_classes} or c.bases:
                 continue
             ms = {m.name: m for m in c.body if isinstance(m, ast.FunctionDef)}
             if set(ms) != {"__init__", "__enter__", "__exit__"}:
@@ -1232,7 +1239,8 @@ def tuple_result_records(trees: dict[str, ast.Module], known_classes: set[str]) 
     recs: dict[str, list[tuple[str, ast.expr | None]]] = {}
     for mname, tree in trees.items():
         for name, fields in _record_fields(tree).items():
-            if f"{mname}:{name}" not in known_classes and name.startswith("_"):
+            # (a known class that moved to another module keeps its identity for the rules)
+            if f"{mname}:{name}" not in known_classes and name not in {q.split(":", 1)[-1] for q in known_classes} and name.startswith("_"):
                 if name in recs:
                     recs[name] = []  # two private records of one name: leave both
                 else:
